@@ -179,13 +179,13 @@ def run(ctx):
                 programs.append(('corpus/' + f, json.load(open(os.path.join(cdir, f)))['source']))
     for i, p in enumerate(fd.HAND_PROGRAMS):
         programs.append(('hand%d.py' % i, p))
-    for i in range(ctx.pick(60, 800)):
+    for i in range(ctx.pick(60, 300)):
         p, kinds = fd.gen_program(ctx.rng, size=ctx.rng.choice([5, 8, 12, 20]), allow_kw_star_walrus=True)
         for k, v in kinds.items():
             ctx.histogram('constructs', k, v)
         programs.append(('gen%d.py' % i, p))
     real = []
-    for fn in stdlib_files(limit=ctx.pick(10, 120), rng=ctx.rng):
+    for fn in stdlib_files(limit=ctx.pick(10, 60), rng=ctx.rng):
         try:
             text = open(fn, encoding='utf8').read()
         except (UnicodeDecodeError, OSError):
@@ -224,9 +224,9 @@ def run(ctx):
             if not same_graph(a.g, base.g):
                 raise fd.DumpError('two analyses of one text dump different graphs')
             fresh[k] = a.ask(k)
-        orders = orders_for(ctx, len(sel), ctx.pick(6, 60) if len(sel) > 6 else ctx.pick(40, 720))
+        orders = orders_for(ctx, len(sel), ctx.pick(6, 24) if len(sel) > 6 else ctx.pick(40, 150))
         if real_file:
-            orders = orders[:ctx.pick(5, 12)]
+            orders = orders[:ctx.pick(5, 10)]
         kept = 0
         for order in orders:
             a = Analysis(text, fname)
